@@ -234,7 +234,11 @@ func sysRandomStims(rng *rand.Rand, cfg sys.Config, n int, w map[string]int) []s
 		t := cfg.Threads[rng.Intn(len(cfg.Threads))]
 		switch kinds[rng.Intn(len(kinds))] {
 		case "invoke":
-			out = append(out, sys.Stim{K: "start", T: t, Op: "Invoke", Md: []string{"none", "none", "M1"}[rng.Intn(3)]})
+			iop := "Invoke"
+			if rng.Intn(12) == 0 {
+				iop = "InvokeBad" // a request the encoding cannot marshal
+			}
+			out = append(out, sys.Stim{K: "start", T: t, Op: iop, Md: []string{"none", "none", "M1"}[rng.Intn(3)]})
 			if hasPoint(cfg, "manager.acquire.got") && rng.Intn(10) < 7 {
 				out = append(out, sys.Stim{K: "point", T: t})
 			}
